@@ -75,7 +75,8 @@ type GenSource struct {
 	sentAll [][]byte
 	fresh   [][]byte // valid txs built against the state committed before the current block (never delivered)
 	// hooks for engines that extend the schedule
-	OnEndBlock func(w *World, b *Block)
+	OnEndBlock  func(w *World, b *Block)
+	hostileHook func(w *World) ([]byte, string, bool)
 }
 
 func draw[T any](t *rapid.T, g *rapid.Generator[T], label string) T { return g.Draw(t, label) }
@@ -382,6 +383,12 @@ func (s *GenSource) EndBlock(w *World, b *Block) {
 func (s *GenSource) NextTx(w *World, b *Block) ([]byte, string) {
 	if len(b.Txs) >= s.nTx {
 		return nil, ""
+	}
+	if s.hostileHook != nil {
+		if raw, note, ok := s.hostileHook(w); ok {
+			s.sentAll = append(s.sentAll, raw)
+			return raw, note
+		}
 	}
 	raw, note := s.genTx(w, b)
 	s.sentAll = append(s.sentAll, raw)
